@@ -204,3 +204,366 @@ def translate(repo='/repo', tu=None):
 
 if __name__ == '__main__':
     sys.stdout.write(translate())
+
+
+# ======================================================================================================================
+# grow round 2: the small RadixSorter functions (integral code getter, pvGetRadix, the first shift computed by Sort())
+class RxFn(SelFn):
+    """adds: `*iter` of the code getter is its value parameter; std::is_signed<Value>::value is evaluated from the
+    instantiation's `Value` typedef; the call pvSort<Code>(..., shift) at the end of Sort() records its last argument in the
+    state scalar first_shift (everything else about that call belongs to the pvSort model)"""
+    is_signed_text = None
+
+    def e(self, n):
+        k = n.get('kind')
+        if k == 'UnaryOperator' and n.get('opcode') == '*':
+            t = strip_casts(n['inner'][0])
+            if t.get('kind') == 'DeclRefExpr' and t['referencedDecl']['name'] == 'iter':
+                return 'iter'
+            raise TranslationError('dereference of something else than iter')
+        if k == 'DeclRefExpr' and n['referencedDecl'].get('name') == 'value' and n['referencedDecl'].get('kind') == 'VarDecl' \
+                and 'bool' in n.get('type', {}).get('qualType', '') and 'value' not in self.env:
+            if self.is_signed_text is None:
+                raise TranslationError('std::is_signed<...>::value outside a code getter')
+            return self.is_signed_text
+        return super().e(n)
+
+    def expr_stmt(self, s, rest):
+        ci = callinfo(s)
+        if ci is not None and ci[0] == 'pvSort':
+            self.note_write('first_shift')
+            return 'let first_shift := %s in\n%s' % (self.e(ci[1][-1]), rest())
+        return super().expr_stmt(s, rest)
+
+
+def _methods(objs, name):
+    acc = []
+    def walk(n):
+        if isinstance(n, dict):
+            if n.get('kind') == 'CXXMethodDecl' and n.get('name') == name and any(c.get('kind') == 'CompoundStmt' for c in n.get('inner', [])):
+                acc.append(n)
+            for c in n.get('inner', []):
+                walk(c)
+    for o in objs:
+        walk(o)
+    return acc
+
+
+def _value_type(decl):
+    """desugared type of the `Value` typedef inside a code getter's operator()"""
+    found = []
+    def walk(n):
+        if isinstance(n, dict):
+            if n.get('kind') == 'TypedefDecl' and n.get('name') == 'Value':
+                found.append(n['type'].get('desugaredQualType') or n['type'].get('qualType'))
+            for c in n.get('inner', []):
+                walk(c)
+    walk(decl)
+    if len(found) != 1:
+        raise TranslationError('code getter without a single `Value` typedef')
+    return found[0]
+
+
+def _gen_one(decl, outname, fields, symbolic=(), is_signed=None, ret=None, drop_static=True, fuel=None):
+    cfg = {'name': 'Gen_Radix', 'fields': dict(fields), 'symbolic': list(symbolic), 'functions': [],
+           'functor_params': {decl['name']: {'codeGetter': 'skip', 'iterSwapper': 'skip', 'groupFunc': 'skip'}},
+           'ret_types': ({decl['name']: ret} if ret else {}), 'fuel': ({decl['name']: fuel} if fuel else {})}
+    d = dict(decl)
+    if drop_static:
+        d.pop('storageClass', None)
+    ctx = cxx2coq.Ctx(cfg)
+    f = RxFn(ctx, d, outname)
+    f.is_signed_text = is_signed
+    try:
+        txt = f.gen()
+    except TranslationError as ex:
+        raise TranslationError('%s (%s): %s' % (decl['name'], outname, ex))
+    return txt, ctx
+
+
+def translate_radix(repo='/repo', tu=None):
+    """Gen_Radix.v: code getters for int/uint 8..64, pvGetRadix (64-bit and 8-bit code instantiations), first shift of Sort()
+    for RadixSorter<8> on 64-bit codes and RadixSorter<16> on 8-bit codes.  radixSize is kept symbolic (Section variable)."""
+    tu = tu or os.path.join(os.path.dirname(os.path.abspath(__file__)), 'inst_radix.cpp')
+    cfg = {'tu': tu, 'filter': 'RadixSorter', 'includes': [os.path.join(repo, 'include')]}
+    objs = cxx2coq.load_objs(cxx2coq.dump_ast(cfg, repo))
+    out = []
+    names = {'signed char': 's8', 'short': 's16', 'int': 's32', 'long': 's64',
+             'unsigned char': 'u8', 'unsigned short': 'u16', 'unsigned int': 'u32', 'unsigned long': 'u64'}
+    seen = set()
+    for d in _methods(objs, 'operator()'):
+        ps = [p for p in d.get('inner', []) if p.get('kind') == 'ParmVarDecl']
+        if len(ps) != 1 or ps[0].get('name') != 'iter' or 'RadixSorterCodeGetter<' not in d['type']['qualType']:
+            continue
+        vt = (ps[0]['type'].get('desugaredQualType') or ps[0]['type']['qualType']).strip()
+        if not vt.endswith('*'):
+            continue
+        vt = vt[:-1].strip()           # value type = pointee of the iterator parameter (std::is_signed is evaluated from it)
+        if vt not in names or vt in seen:
+            continue
+        seen.add(vt)
+        signed = not vt.startswith('unsigned')
+        code_t = 'unsigned ' + {'signed char': 'char', 'unsigned char': 'char', 'short': 'short', 'unsigned short': 'short',
+                                'int': 'int', 'unsigned int': 'int', 'long': 'long', 'unsigned long': 'long'}[vt]
+        txt, _ = _gen_one(d, 'code_getter_' + names[vt], {}, is_signed=('true' if signed else 'false'), ret=code_t)
+        out.append(txt)
+    if seen != set(names):
+        raise TranslationError('code getter instantiations missing: %s' % sorted(set(names) - seen))
+    sec = []
+    for d in _methods(objs, 'pvGetRadix'):
+        q = d['type']['qualType']
+        if q.startswith('size_t (unsigned long,'):
+            sec.append(_gen_one(d, 'pvGetRadix_u64', {}, symbolic=['radixSize'])[0])
+        elif q.startswith('size_t (unsigned char,'):
+            sec.append(_gen_one(d, 'pvGetRadix_u8', {}, symbolic=['radixSize'])[0])
+    for d in _methods(objs, 'Sort'):
+        q = d['type']['qualType']
+        if q.startswith('void (unsigned long *, size_t, const momo::internal::C17CodeGetter64'):
+            sec.append(_gen_one(d, 'Sort_first_shift_u64', {'first_shift': 'scalar'}, symbolic=['radixSize'])[0])
+        elif q.startswith('void (unsigned char *, size_t, const momo::internal::C17CodeGetter8'):
+            sec.append(_gen_one(d, 'Sort_first_shift_u8', {'first_shift': 'scalar'}, symbolic=['radixSize'])[0])
+    if len(sec) != 4:
+        raise TranslationError('expected pvGetRadix x2 and Sort x2 instantiations, translated %d' % len(sec))
+    return ('(* GENERATED by props/C17/sel2coq.py (on tools/cxx2coq.py) from RadixSorter.h: integral RadixSorterCodeGetter::operator()\n'
+            '   for 8 value types, pvGetRadix and the first shift of Sort() for two instantiations -- do not edit *)\n\n'
+            'From Coq Require Import ZArith Bool List.\nFrom MomoCommon Require Import GenPrelude.\nLocal Open Scope Z_scope.\n\n'
+            + '\n\n'.join(out) + '\n\nSection Gen_Radix_sec.\nVariable radixSize : Z.\n\n' + '\n\n'.join(sec) + '\n\nEnd Gen_Radix_sec.\n')
+
+
+# ======================================================================================================================
+# grow round 2, part 2: the counting pass + prefix sums of pvRadixSort (first overload), translated from the source
+class CntFn(RxFn):
+    """endIndexes (local std::array<size_t, radixCount>) is a state array; endIndexes.fill(0) resets it; singleCode /
+    singleRadix are state booleans; codeGetter(begin) reads items 0; pvGetRadix<Code>(c, s) is the generated pvGetRadix_u64;
+    `b &= e` on bools is andb."""
+    ARR = 'endIndexes'
+
+    def pos(self, n):
+        t = strip_casts(n)
+        if t.get('kind') == 'DeclRefExpr' and t['referencedDecl']['name'] == 'begin':
+            return '(0)'
+        return super().pos(n)
+
+    def e(self, n):
+        oi = opinfo(n)
+        if oi is not None and oi[0] == 'operator[]' and oi[1] == self.ARR:
+            return '(%s %s)' % (self.ARR, self.e(oi[2][0]))
+        ci = callinfo(n)
+        if ci is not None and ci[0] == 'pvGetRadix' and len(ci[1]) == 2:
+            return '(pvGetRadix_u64 %s %s)' % (self.e(ci[1][0]), self.e(ci[1][1]))
+        return super().e(n)
+
+    def lhs_name(self, l):
+        oi = opinfo(l)
+        if oi is not None and oi[0] == 'operator[]' and oi[1] == self.ARR:
+            return self.ARR
+        return super().lhs_name(l)
+
+    def assign_to(self, lhs, val, k):
+        oi = opinfo(lhs)
+        if oi is not None and oi[0] == 'operator[]' and oi[1] == self.ARR:
+            self.note_write(self.ARR)
+            return 'let %s := upd %s %s %s in\n%s' % (self.ARR, self.ARR, self.e(oi[2][0]), val, k())
+        return super().assign_to(lhs, val, k)
+
+    def used_names(self, n, acc):
+        oi = opinfo(n) if isinstance(n, dict) and n.get('kind') == 'CXXOperatorCallExpr' else None
+        if oi is not None and oi[1] == self.ARR:
+            acc.add(self.ARR)
+        return super().used_names(n, acc)
+
+    def decl(self, s, rest):
+        vs = [v for v in s.get('inner', []) if v.get('kind') == 'VarDecl']
+        if len(vs) == 1 and vs[0]['name'] == self.ARR:
+            if 'std::array' not in vs[0]['type']['qualType']:
+                raise TranslationError('%s is no longer a std::array' % self.ARR)
+            return rest()
+        if len(vs) == 1 and vs[0]['name'] in ('singleCode', 'singleRadix'):
+            init = [x for x in vs[0].get('inner', []) if isinstance(x, dict)]
+            self.note_write(vs[0]['name'])
+            return 'let %s := %s in\n%s' % (vs[0]['name'], self.e(init[0]), rest())
+        return super().decl(s, rest)
+
+    def expr_stmt(self, s, rest):
+        s0 = skip_wrappers(s)
+        if s0.get('kind') == 'CXXMemberCallExpr':
+            m = strip_casts(s0['inner'][0]); o = strip_casts(m['inner'][0]) if m.get('inner') else {}
+            if m.get('kind') == 'MemberExpr' and m.get('name') == 'fill' and o.get('kind') == 'DeclRefExpr' and o['referencedDecl']['name'] == self.ARR:
+                self.note_write(self.ARR)
+                return 'let %s := (fun _ : Z => %s) in\n%s' % (self.ARR, self.e(s0['inner'][1]), rest())
+        if s0.get('kind') == 'CompoundAssignOperator' and s0.get('opcode') == '&=':
+            l = strip_casts(s0['inner'][0])
+            if l.get('kind') == 'DeclRefExpr' and l['referencedDecl']['name'] in ('singleCode', 'singleRadix'):
+                nm = l['referencedDecl']['name']; self.note_write(nm)
+                rhs = strip_casts(s0['inner'][1])        # bool -> int promotion of the right operand
+                return 'let %s := (andb %s %s) in\n%s' % (nm, nm, self.e(rhs), rest())
+        return super().expr_stmt(s, rest)
+
+
+def _cond_refs(n, name):
+    c = strip_casts(n)
+    return c.get('kind') == 'DeclRefExpr' and c['referencedDecl']['name'] == name
+
+
+def translate_count(repo='/repo', tu=None):
+    """Gen_RadixCount.v: the part of RadixSorter<8>::pvRadixSort (first overload, 64-bit codes) from its beginning to the
+    end of the counting loop, followed by its prefix-sum loop (the statements in between -- the singleCode / singleRadix
+    shortcuts and nextShift -- do not touch endIndexes and are checked to have exactly that shape)."""
+    tu = tu or os.path.join(os.path.dirname(os.path.abspath(__file__)), 'inst_radix.cpp')
+    cfg = {'tu': tu, 'filter': 'RadixSorter', 'includes': [os.path.join(repo, 'include')]}
+    objs = cxx2coq.load_objs(cxx2coq.dump_ast(cfg, repo))
+    cands = [d for d in _methods(objs, 'pvRadixSort')
+             if d['type']['qualType'].startswith('void (unsigned long *, size_t, const momo::internal::C17CodeGetter64')]
+    if len(cands) != 1:
+        raise TranslationError('expected one instantiated pvRadixSort(begin, count, ...) for 64-bit codes, found %d' % len(cands))
+    d = dict(cands[0]); d.pop('storageClass', None)
+    body = [c for c in d['inner'] if c.get('kind') == 'CompoundStmt'][0]
+    st = body['inner']
+    cut = [i for i, x in enumerate(st) if x.get('kind') == 'IfStmt' and _cond_refs(x['inner'][0], 'singleCode')]
+    if len(cut) != 1:
+        raise TranslationError('pvRadixSort: `if (singleCode)` not found exactly once')
+    cut = cut[0]
+    mid = st[cut:]
+    # shape of the skipped part: if (singleCode) return groupFunc(..); size_t nextShift = ..; if (singleRadix) {..}; for (prefix sums)
+    kinds = [x.get('kind') for x in mid[:4]]
+    if kinds != ['IfStmt', 'DeclStmt', 'IfStmt', 'ForStmt'] or not _cond_refs(mid[2]['inner'][0], 'singleRadix'):
+        raise TranslationError('pvRadixSort: statements after the counting loop changed shape: %s' % kinds)
+    if 'endIndexes' in json.dumps(mid[0]) or 'endIndexes' in json.dumps(mid[1]) or 'endIndexes' in json.dumps(mid[2]):
+        raise TranslationError('pvRadixSort: the singleCode/singleRadix shortcuts touch endIndexes')
+    body2 = dict(body); body2['inner'] = st[:cut] + [mid[3]]
+    d['inner'] = [c if c.get('kind') != 'CompoundStmt' else body2 for c in d['inner']]
+    fields = {'endIndexes': 'array', 'items': 'array', 'singleCode': 'bool', 'singleRadix': 'bool'}
+    cfgf = {'name': 'Gen_RadixCount', 'fields': fields, 'symbolic': ['radixSize', 'radixCount'], 'functions': [],
+            'functor_params': {'pvRadixSort': {'codeGetter': 'skip', 'iterSwapper': 'skip', 'groupFunc': 'skip'}},
+            'fuel': {'pvRadixSort': 'loop_fuel'}}
+    ctx = cxx2coq.Ctx(cfgf)
+    f = CntFn(ctx, d, 'pvRadixSort_count')
+    try:
+        txt = f.gen()
+    except TranslationError as ex:
+        raise TranslationError('pvRadixSort (counting pass): %s' % ex)
+    return ('(* GENERATED by props/C17/sel2coq.py (on tools/cxx2coq.py) from RadixSorter.h: counting pass + prefix sums of\n'
+            '   RadixSorter<8>::pvRadixSort(begin, count, ...) on 64-bit codes -- do not edit *)\n\n'
+            'From Coq Require Import ZArith Bool List.\nFrom MomoCommon Require Import GenPrelude.\nFrom C17 Require Import Gen_Radix.\n'
+            'Local Open Scope Z_scope.\n\nSection Gen_RadixCount_sec.\nVariable radixSize : Z.\nVariable radixCount : Z.\nVariable loop_fuel : nat.\n'
+            'Local Notation pvGetRadix_u64 := (Gen_Radix.pvGetRadix_u64 radixSize).\n\n' + txt + '\n\nEnd Gen_RadixCount_sec.\n')
+
+
+# ======================================================================================================================
+# grow round 2, part 3: the in-place cycle-leader permutation (second pvRadixSort overload), translated from the source
+class CycFn(CntFn):
+    """beginIndexes (local std::array) and endIndexes (const std::array& parameter) are state arrays; the local reference
+    `size_t& beginIndex = beginIndexes[r]` is an alias: every use re-reads beginIndexes[r] (r is not assigned while the alias
+    is alive -- checked)."""
+    ARRS = ('endIndexes', 'beginIndexes')
+
+    def __init__(self, *a, **k):
+        super().__init__(*a, **k)
+        self.alias = {}
+
+    def e(self, n):
+        oi = opinfo(n)
+        if oi is not None and oi[0] == 'operator[]' and oi[1] in self.ARRS:
+            return '(%s %s)' % (oi[1], self.e(oi[2][0]))
+        if n.get('kind') == 'DeclRefExpr' and n['referencedDecl'].get('name') in self.alias:
+            arr, idx = self.alias[n['referencedDecl']['name']]
+            return '(%s %s)' % (arr, idx)
+        return super().e(n)
+
+    def lhs_name(self, l):
+        oi = opinfo(l)
+        if oi is not None and oi[0] == 'operator[]' and oi[1] in self.ARRS:
+            return oi[1]
+        return super().lhs_name(l)
+
+    def assign_to(self, lhs, val, k):
+        oi = opinfo(lhs)
+        if oi is not None and oi[0] == 'operator[]' and oi[1] in self.ARRS:
+            self.note_write(oi[1])
+            return 'let %s := upd %s %s %s in\n%s' % (oi[1], oi[1], self.e(oi[2][0]), val, k())
+        return super().assign_to(lhs, val, k)
+
+    def used_names(self, n, acc):
+        if isinstance(n, dict):
+            oi = opinfo(n) if n.get('kind') == 'CXXOperatorCallExpr' else None
+            if oi is not None and oi[1] in self.ARRS:
+                acc.add(oi[1])
+            if n.get('kind') == 'DeclRefExpr' and n['referencedDecl'].get('name') in self.alias:
+                acc.add(self.alias[n['referencedDecl']['name']][0])
+        return super().used_names(n, acc)
+
+    def ref_alias_base(self, v):
+        init = [x for x in v.get('inner', []) if isinstance(x, dict)]
+        oi = opinfo(init[0]) if init else None
+        if v.get('type', {}).get('qualType', '').strip().endswith('&') and oi is not None and oi[0] == 'operator[]' and oi[1] in self.ARRS:
+            return oi[1]          # handled by decl() below (read-only alias)
+        return super().ref_alias_base(v)
+
+    def decl(self, s, rest):
+        vs = [v for v in s.get('inner', []) if v.get('kind') == 'VarDecl']
+        if len(vs) == 1 and vs[0]['name'] in self.ARRS:
+            if 'std::array' not in vs[0]['type']['qualType']:
+                raise TranslationError('%s is no longer a std::array' % vs[0]['name'])
+            return rest()
+        if len(vs) == 1 and vs[0]['type']['qualType'].strip().endswith('&'):
+            init = [x for x in vs[0].get('inner', []) if isinstance(x, dict)]
+            oi = opinfo(init[0]) if init else None
+            if oi is None or oi[0] != 'operator[]' or oi[1] not in self.ARRS:
+                raise TranslationError('reference local %s is not bound to an element of a state array' % vs[0]['name'])
+            idx = strip_casts(oi[2][0])
+            if idx.get('kind') != 'DeclRefExpr':
+                raise TranslationError('reference local bound to a non-variable index')
+            self.alias[vs[0]['name']] = (oi[1], idx['referencedDecl']['name'])
+            return rest()
+        return super().decl(s, rest)
+
+
+def translate_cycle(repo='/repo', tu=None):
+    """Gen_RadixCycle.v: RadixSorter<8>::pvRadixSort(begin, codeGetter, iterSwapper, shift, endIndexes) on 64-bit codes"""
+    tu = tu or os.path.join(os.path.dirname(os.path.abspath(__file__)), 'inst_radix.cpp')
+    cfg = {'tu': tu, 'filter': 'RadixSorter', 'includes': [os.path.join(repo, 'include')]}
+    objs = cxx2coq.load_objs(cxx2coq.dump_ast(cfg, repo))
+    cands = [d for d in _methods(objs, 'pvRadixSort')
+             if d['type']['qualType'].startswith('void (unsigned long *, const momo::internal::C17CodeGetter64')]
+    if len(cands) != 1:
+        raise TranslationError('expected one instantiated pvRadixSort(begin, codeGetter, iterSwapper, shift, endIndexes), found %d' % len(cands))
+    d = dict(cands[0]); d.pop('storageClass', None)
+    fields = {'endIndexes': 'array', 'beginIndexes': 'array', 'items': 'array', 'swa': 'array', 'swb': 'array', 'swn': 'scalar'}
+    cfgf = {'name': 'Gen_RadixCycle', 'fields': fields, 'symbolic': ['radixSize', 'radixCount'], 'functions': [],
+            'functor_params': {'pvRadixSort': {'codeGetter': 'skip', 'iterSwapper': 'skip'}}, 'skip_params': {'pvRadixSort': ['endIndexes']},
+            'fuel': {'pvRadixSort': 'loop_fuel'}}
+    ctx = cxx2coq.Ctx(cfgf)
+    f = CycLogFn(ctx, d, 'pvRadixSort_cycle')
+    try:
+        txt = f.gen()
+    except TranslationError as ex:
+        raise TranslationError('pvRadixSort (cycle-leader loop): %s' % ex)
+    return ('(* GENERATED by props/C17/sel2coq.py (on tools/cxx2coq.py) from RadixSorter.h: the in-place cycle-leader permutation\n'
+            '   RadixSorter<8>::pvRadixSort(begin, codeGetter, iterSwapper, shift, endIndexes) on 64-bit codes -- do not edit *)\n\n'
+            'From Coq Require Import ZArith Bool List.\nFrom MomoCommon Require Import GenPrelude.\nFrom C17 Require Import SelPrims Gen_Radix.\n'
+            'Local Open Scope Z_scope.\n\nSection Gen_RadixCycle_sec.\nVariable radixSize : Z.\nVariable radixCount : Z.\nVariable loop_fuel : nat.\n'
+            'Local Notation pvGetRadix_u64 := (Gen_Radix.pvGetRadix_u64 radixSize).\n\n' + txt + '\n\nEnd Gen_RadixCycle_sec.\n')
+
+
+class CycLogFn(CycFn):
+    """additionally logs every iterSwapper call (swa[swn], swb[swn], swn) so that the run-time comparison sees the swap order"""
+    def expr_stmt(self, s, rest):
+        oi = opinfo(s)
+        if oi is not None and oi[0] == 'operator()' and oi[1] == 'iterSwapper':
+            a = self.pos(oi[2][0]); b = self.pos(oi[2][1])
+            for f in ('items', 'swa', 'swb', 'swn'): self.note_write(f)
+            return ('let swa := upd swa swn %s in\nlet swb := upd swb swn %s in\nlet swn := (wrapU 64 (swn + 1)) in\n'
+                    'let items := swapf items %s %s in\n%s' % (a, b, a, b, rest()))
+        return super().expr_stmt(s, rest)
+
+    def assigned(self, n, acc, declared):
+        oi = opinfo(n)
+        if oi is not None and oi[0] == 'operator()' and oi[1] == 'iterSwapper':
+            acc.update(('swa', 'swb', 'swn'))
+        return super().assigned(n, acc, declared)
+
+    def used_names(self, n, acc):
+        oi = opinfo(n) if isinstance(n, dict) and n.get('kind') == 'CXXOperatorCallExpr' else None
+        if oi is not None and oi[1] == 'iterSwapper':
+            acc.update(('swa', 'swb', 'swn'))
+        return super().used_names(n, acc)
